@@ -134,12 +134,12 @@ Proof.
   assert (H5 : Iv (RelX (cid :: L) P N F) w5).
   { unfold w5. eapply Inv_wsetc; [exact H4|]. intros c _ HR. split.
     - apply RelQ_release; [right; left; reflexivity|exact HR].
-    - split; [eapply holder_lt; [exact (proj1 HR)|right; left; left; reflexivity]|].
+    - split; [apply (holder_lt (cid :: L) P N (fst c) (st w4) cid (proj1 HR)); right; left; left; reflexivity|].
       rewrite getc_setc, Z.eqb_refl. unfold c_release, fd4, wc.
       destruct (c_udp (getc (st w4) cid)); split; reflexivity. }
   destruct (epctl "del" fd4 false false w5) as [r0 w6] eqn:He6.
   assert (H6 : Iv (RelX (cid :: L) P N F) w6).
-  { eapply I_epctl; [apply Stable_At|cbn; tauto|exact H5| |exact He6].
+  { eapply (I_epctl c0 (cid :: L) P N F "del"); [apply Stable_At|cbn; tauto|exact H5| |exact He6].
     intros m cs _ _ Hne. congruence. }
   destruct (sys "close" [AInt fd4] w6) as [k1 w7] eqn:Hs7.
   assert (H7 : Iv (Rel L P N) w7).
@@ -149,5 +149,345 @@ Proof.
     [exact H7|].
   destruct act; [exact H7|apply IHclose; exact H7|exact H7].
 Qed.
+
+
+Lemma close_drain_step : forall f, spec f ->
+  forall cid w L P N, In cid L -> Iv (Rel L P N) w -> Iv (Rel L P N) (close_drain (S f) cid w).
+Proof.
+  intros f (_ & IHdrain & _) cid w L P N Hin H.
+  rewrite close_drain_S. cbv zeta.
+  destruct (c_out (wc w cid)) as [|b0 out]; [exact H|].
+  destruct (sys_wr cid (c_fd (wc w cid)) (b0 :: out) false w) as [k w1] eqn:Hs.
+  assert (H1 : Iv (Rel L P N) w1).
+  { apply Iv_Rel_X. eapply I_sys_wr; [apply Stable_Tr|apply Iv_Rel_X; exact H| |exact Hs].
+    intros m cs _ _ HL. eapply Led_owns_holder; [exact HL|]. right; left; exact Hin. }
+  destruct k; try exact H1.
+  apply IHdrain; [exact Hin|]. apply I_wsetc; auto.
+Qed.
+
+(* the tail shared by conn_write_loop / conn_writev_loop: buffer the rest, arm EPOLLOUT *)
+Lemma write_tail : forall L P N cid fd w x (et : bool) (n : Z),
+  Iv (RelX L P N (OpFd cid fd)) w ->
+  Iv (Rel L P N)
+    (snd (let w2 := wsetc w cid (c_set_out (wc w cid) x) in
+          if et then ((n, true), w2)
+          else let '(r, w3) := epctl "mod" fd true et w2 in
+               ((n, match r with RNil => true | _ => false end), w3))).
+Proof.
+  intros L P N cid fd w x et n H. cbv zeta.
+  assert (H2 := I_wsetc_out_open L P N cid fd w x H).
+  destruct et; cbn [snd]; [eapply Iv_X_Rel; exact H2|].
+  destruct (epctl "mod" fd true false _) as [r w3] eqn:He. cbn [snd].
+  eapply Iv_X_Rel. eapply (I_epctl_open L P N cid fd "mod"); [cbn; tauto|exact H2|exact He].
+Qed.
+
+Lemma conn_write_loop_step : forall f, spec f ->
+  forall cid d n w L P N, Iv (RelX L P N (Opened cid)) w ->
+  Iv (Rel L P N) (snd (conn_write_loop (S f) cid d n w)).
+Proof.
+  intros f (_ & _ & _ & IHloop & _) cid d n w L P N H.
+  rewrite conn_write_loop_S. cbv zeta.
+  apply I_opened_fd in H. set (fd := c_fd (wc w cid)) in *.
+  destruct (sys_wr cid fd d true w) as [k w1] eqn:Hs.
+  assert (H1 := I_sys_wr_open L P N cid fd d true w k w1 H Hs).
+  destruct k as [sent ex|e|].
+  - destruct (zdrop sent d) as [|r0 rest] eqn:Hz; [cbn [snd]; eapply Iv_X_Rel; exact H1|].
+    destruct (l_et (st w)) eqn:Het.
+    + apply IHloop. eapply I_fd_opened; exact H1.
+    + apply (write_tail L P N cid fd w1 (c_out (wc w1 cid) ++ r0 :: rest) false n H1).
+  - destruct (is_eagain e); [|cbn [snd]; eapply Iv_X_Rel; exact H1].
+    apply (write_tail L P N cid fd w1 (c_out (wc w1 cid) ++ d) (l_et (st w)) n H1).
+  - cbn [snd]. eapply Iv_X_Rel; exact H1.
+Qed.
+
+Lemma conn_writev_loop_step : forall f, spec f ->
+  forall cid segs n w L P N, Iv (RelX L P N (Opened cid)) w ->
+  Iv (Rel L P N) (snd (conn_writev_loop (S f) cid segs n w)).
+Proof.
+  intros f (_ & _ & _ & _ & IHloop & _) cid segs n w L P N H.
+  rewrite conn_writev_loop_S. cbv zeta.
+  apply I_opened_fd in H. set (fd := c_fd (wc w cid)) in *.
+  destruct (sys_wr cid fd (List.concat (firstn 1024 segs)) true w) as [k w1] eqn:Hs.
+  assert (H1 := I_sys_wr_open L P N cid fd _ true w k w1 H Hs).
+  destruct k as [sent ex|e|].
+  - destruct (List.concat (drop_sent sent segs)) as [|r0 rest] eqn:Hz; [cbn [snd]; eapply Iv_X_Rel; exact H1|].
+    destruct (l_et (st w)) eqn:Het.
+    + apply IHloop. eapply I_fd_opened; exact H1.
+    + apply (write_tail L P N cid fd w1 (c_out (wc w1 cid) ++ r0 :: rest) false n H1).
+  - destruct (is_eagain e); [|cbn [snd]; eapply Iv_X_Rel; exact H1].
+    apply (write_tail L P N cid fd w1 (c_out (wc w1 cid) ++ List.concat segs) (l_et (st w)) n H1).
+  - cbn [snd]. eapply Iv_X_Rel; exact H1.
+Qed.
+
+Lemma conn_write_step : forall f, spec f ->
+  forall cid d w L P N, Iv (Rel L P N) w -> Iv (Rel L P N) (snd (conn_write (S f) cid d w)).
+Proof.
+  intros f (IHclose & _ & _ & IHloop & _) cid d w L P N H.
+  rewrite conn_write_S. cbv zeta.
+  destruct (c_opened (wc w cid)) eqn:Hop; cbn [negb]; [|exact H].
+  assert (Hg : Iv (Rel L P N) (ghost "sub" cid d w)) by (apply I_ghost; [cbn; tauto|exact H]).
+  destruct (c_out (wc w cid)) as [|b0 out] eqn:Hout.
+  - destruct (conn_write_loop f cid d (zlen d) (ghost "sub" cid d w)) as [[rn ok] w1] eqn:Hl.
+    assert (H1 : Iv (Rel L P N) w1).
+    { specialize (IHloop cid d (zlen d) (ghost "sub" cid d w) L P N). rewrite Hl in IHloop.
+      apply IHloop. apply I_assert_opened; [exact Hg|]. rewrite wc_ghost. exact Hop. }
+    destruct ok; [exact H1|].
+    destruct (el_close f cid false w1) as [r2 w2] eqn:Hc. cbn [snd].
+    specialize (IHclose cid false w1 L P N H1). rewrite Hc in IHclose. exact IHclose.
+  - cbn [snd]. apply I_wsetc; try (rewrite wc_ghost; reflexivity). exact Hg.
+Qed.
+
+Lemma conn_writev_step : forall f, spec f ->
+  forall cid segs w L P N, Iv (Rel L P N) w -> Iv (Rel L P N) (snd (conn_writev (S f) cid segs w)).
+Proof.
+  intros f (IHclose & _ & _ & _ & IHloop & _) cid segs w L P N H.
+  rewrite conn_writev_S. cbv zeta.
+  destruct (c_opened (wc w cid)) eqn:Hop; cbn [negb]; [|exact H].
+  assert (Hg : Iv (Rel L P N) (ghost "sub" cid (List.concat segs) w)) by (apply I_ghost; [cbn; tauto|exact H]).
+  destruct (c_out (wc w cid)) as [|b0 out] eqn:Hout.
+  - destruct segs as [|s0 segs']; [exact Hg|].
+    destruct (conn_writev_loop f cid (s0 :: segs') (zlen (List.concat (s0 :: segs'))) _) as [[rn ok] w1] eqn:Hl.
+    assert (H1 : Iv (Rel L P N) w1).
+    { specialize (IHloop cid (s0 :: segs') (zlen (List.concat (s0 :: segs'))) (ghost "sub" cid (List.concat (s0 :: segs')) w) L P N).
+      rewrite Hl in IHloop.
+      apply IHloop. apply I_assert_opened; [exact Hg|]. rewrite wc_ghost. exact Hop. }
+    destruct ok; [exact H1|].
+    destruct (el_close f cid false w1) as [r2 w2] eqn:Hc. cbn [snd].
+    specialize (IHclose cid false w1 L P N H1). rewrite Hc in IHclose. exact IHclose.
+  - cbn [snd]. apply I_wsetc; try (rewrite wc_ghost; reflexivity). exact Hg.
+Qed.
+
+Lemma el_write_step : forall f, spec f ->
+  forall cid sent w L P N, Iv (Rel L P N) w -> Iv (Rel L P N) (snd (el_write (S f) cid sent w)).
+Proof.
+  intros f (IHclose & _ & _ & _ & _ & _ & IHwrite & _) cid sent w L P N H.
+  rewrite el_write_S. cbv zeta.
+  destruct (c_opened (wc w cid)) eqn:Hop; cbn [negb]; [|exact H].
+  destruct (c_out (wc w cid)) as [|b0 out] eqn:Hout; [exact H|].
+  assert (HX := I_opened_fd L P N w cid (I_assert_opened L P N w cid H Hop)).
+  set (fd := c_fd (wc w cid)) in *.
+  destruct (sys_wr cid fd (b0 :: out) false w) as [k w1] eqn:Hs.
+  assert (H1 := I_sys_wr_open L P N cid fd _ false w k w1 HX Hs).
+  destruct k as [n ex|e|].
+  - set (w2 := wsetc w1 cid (c_set_out (wc w1 cid) (zdrop n (c_out (wc w1 cid))))).
+    assert (H2 : Iv (RelX L P N (OpFd cid fd)) w2) by (apply I_wsetc_out_open; exact H1).
+    destruct (zdrop n (c_out (wc w1 cid))) as [|r0 rest].
+    + destruct (l_et (st w)); [eapply Iv_X_Rel; exact H2|].
+      destruct (epctl "mod" fd false false w2) as [r w3] eqn:He. cbn [snd].
+      eapply Iv_X_Rel. eapply (I_epctl_open L P N cid fd "mod"); [cbn; tauto|exact H2|exact He].
+    + destruct (l_et (st w)); [|eapply Iv_X_Rel; exact H2].
+      destruct (sent + n <? l_chunk (st w2)).
+      * apply IHwrite. eapply Iv_X_Rel; exact H2.
+      * eapply Iv_X_Rel. apply I_trigger; [apply Stable_At|reflexivity|exact H2].
+  - destruct (is_eagain e); [eapply Iv_X_Rel; exact H1|].
+    apply IHclose. eapply Iv_X_Rel; exact H1.
+  - eapply Iv_X_Rel; exact H1.
+Qed.
+
+Lemma handler_step : forall f, spec f ->
+  forall cid w L P N, Iv (Rel L P N) w -> Iv (Rel L P N) (snd (handler (S f) cid w)).
+Proof.
+  intros f (_ & _ & _ & _ & _ & _ & _ & IHhandler & IHhcall) cid w L P N H.
+  rewrite handler_S_eqb.
+  destruct (pull w) as [o w1] eqn:Hp.
+  assert (HP := I_pull c0 L P N Tr false w o w1 Stable_Tr (proj1 (Iv_Rel_X c0 L P N w) H) Hp).
+  destruct o as [l|]; [|apply HP].
+  apply Iv_Rel_X in HP.
+  destruct (String.eqb (fst l) "hret").
+  - destruct (snd l); cbn [snd]; [eapply Inv_desync; exact HP|exact HP].
+  - destruct (String.eqb (fst l) "h"); [|eapply Inv_desync; exact HP].
+    destruct (snd l) as [|[z|b|call] args]; cbn [snd]; try (eapply Inv_desync; exact HP).
+    apply IHhandler. apply IHhcall. exact HP.
+Qed.
+
+
+(* sendto on a datagram connection that is open, or is a listener's per-datagram identity *)
+Lemma I_sendto : forall L P N w cid d fl k w1,
+  Iv (Rel L P N) w -> c_udp (wc w cid) = true ->
+  c_remote (wc w cid) = true \/ c_opened (wc w cid) = true ->
+  sys "sendto" [AInt (c_fd (wc w cid)); ABytes d; fl] w = (k, w1) -> Iv (Rel L P N) w1.
+Proof.
+  intros L P N w cid d fl k w1 H Hudp Hor Hs.
+  apply Iv_Rel_X. eapply (I_sys_plain c0 L P N Tr "sendto" (c_fd (wc w cid)));
+    [apply Stable_Tr|reflexivity|reflexivity|apply Iv_Rel_X; exact H| |exact Hs].
+  intros m cs _ [[HR HF] _]. apply FdR_sendto; [exact HF|]. intros HL.
+  destruct Hor as [Hr|Ho].
+  - eapply Led_owns_listener; [exact HL|]. apply (r_udp _ _ _ _ _ HR); auto.
+  - eapply Led_owns_holder; [exact HL|]. left. exact Ho.
+Qed.
+
+Lemma I_stale_sendto : forall L P N w cid fd d fl k w1,
+  Iv (Rel L P N) w ->
+  sys "sendto" [AInt fd; ABytes d; fl] (ghost "staleudp" cid [] w) = (k, w1) -> Iv (Rel L P N) w1.
+Proof.
+  intros L P N w cid fd d fl k w1 H Hs.
+  assert (Hg : Iv (RelXQ L P N (Some ("staleudp", 0)) Tr) (ghost "staleudp" cid [] w)).
+  { unfold ghost. eapply Inv_emit; [exact H|reflexivity|].
+    intros [m cs] _ [HR HF].
+    exists (m, mkFd0 (f_owned cs) (f_static cs) (Some ("staleudp", 0)) (f_dead cs)).
+    split; [reflexivity|]. split; [split; [exact HR|]|exact I]. cbn [snd].
+    destruct HF as [HF|[H1 H2 H3 H4]]; [left; exact HF|].
+    destruct (f_dead cs) eqn:Hd; [left; reflexivity|right]. constructor; auto. }
+  apply Iv_Rel_X. eapply (I_sys_plain_q c0 L P N (Some ("staleudp", 0)) Tr "sendto" fd);
+    [apply Stable_Tr|reflexivity|reflexivity|exact Hg| |exact Hs].
+  intros m cs _ [[HR HF] _]. cbn [snd] in HF.
+  destruct HF as [HF|[H1 H2 H3 H4]].
+  - cbn. destruct (f_last cs) as [[nm z]|].
+    + destruct (sym_eqb nm "staleudp").
+      * eexists. split; [reflexivity|]. left. exact HF.
+      * unfold fd_step. rewrite HF. eexists. split; [reflexivity|]. left. exact HF.
+    + unfold fd_step. rewrite HF. eexists. split; [reflexivity|]. left. exact HF.
+  - cbn. rewrite H1. cbn. eexists. split; [reflexivity|].
+    destruct (f_dead cs) eqn:Hd; [left; reflexivity|right]. constructor; auto.
+Qed.
+
+Lemma I_epctl_opened_now : forall L P N w cid op rw et r w',
+  In op ["add"; "mod"; "del"] -> Iv (Rel L P N) w -> c_opened (wc w cid) = true ->
+  epctl op (c_fd (wc w cid)) rw et w = (r, w') -> Iv (Rel L P N) w'.
+Proof.
+  intros L P N w cid op rw et r w' Hop H Ho He.
+  eapply Iv_X_Rel. eapply (I_epctl_open L P N cid (c_fd (wc w cid)) op); [exact Hop| |exact He].
+  apply I_opened_fd. apply I_assert_opened; auto.
+Qed.
+
+Lemma I_trigger_rel : forall L P N b t w, plain_task t ->
+  Iv (Rel L P N) w -> Iv (Rel L P N) (snd (trigger b t w)).
+Proof.
+  intros. apply Iv_Rel_X. apply I_trigger; [apply Stable_Tr|auto|apply Iv_Rel_X; auto].
+Qed.
+
+Ltac hstep H :=
+  lazymatch goal with
+  | |- Inv pstep c0 _ (emit (obs "hr" _) _) => apply I_hr
+  | |- Inv pstep c0 _ (desync _ _) => eapply Inv_desync; exact H
+  | |- Inv pstep c0 _ (wsetc _ _ _) => apply I_wsetc; [reflexivity|reflexivity|reflexivity|reflexivity|]
+  | |- Inv pstep c0 _ (if ?b then _ else _) => destruct b
+  | |- Inv pstep c0 _ (match ?x with _ => _ end) => destruct x
+  | |- _ => exact H
+  end.
+
+Lemma hcall_step : forall f, spec f ->
+  forall cid call args w L P N, Iv (Rel L P N) w -> Iv (Rel L P N) (hcall (S f) cid call args w).
+Proof.
+  intros f (IHclose & _ & IHcw & _ & _ & IHcwv & IHwrite & _ & IHhcall) cid call args w L P N H.
+  rewrite hcall_S. cbv zeta.
+  destruct (sym_eqb call "read"); [repeat hstep H|].
+  destruct (sym_eqb call "next"); [repeat hstep H|].
+  destruct (sym_eqb call "peek"); [repeat hstep H|].
+  destruct (sym_eqb call "discard"); [repeat hstep H|].
+  destruct (sym_eqb call "writeto"); [repeat hstep H|].
+  destruct (sym_eqb call "inbuf"); [repeat hstep H|].
+  destruct (sym_eqb call "outbuf"); [repeat hstep H|].
+  destruct (sym_eqb call "write").
+  { destruct args as [|[z|d|s0] [|a2 rest]]; try (eapply Inv_desync; exact H).
+    destruct (c_udp (wc w cid)) eqn:Hudp.
+    - destruct (negb (c_remote (wc w cid)) && negb (c_opened (wc w cid))) eqn:Hb; [apply I_hr; exact H|].
+      destruct (sys "sendto" _ w) as [k w1] eqn:Hs.
+      assert (H1 : Iv (Rel L P N) w1).
+      { eapply I_sendto; [exact H|exact Hudp| |exact Hs].
+        destruct (c_remote (wc w cid)); [left; reflexivity|].
+        destruct (c_opened (wc w cid)); [right; reflexivity|discriminate]. }
+      destruct k; apply I_hr; exact H1.
+    - destruct (conn_write f cid d w) as [[n ok] w1] eqn:Hc. apply I_hr.
+      specialize (IHcw cid d w L P N H). rewrite Hc in IHcw. exact IHcw. }
+  destruct (sym_eqb call "writev").
+  { destruct (c_udp (wc w cid)); [apply I_hr; exact H|].
+    destruct (conn_writev f cid (segs_of args) w) as [[n ok] w1] eqn:Hc. apply I_hr.
+    specialize (IHcwv cid (segs_of args) w L P N H). rewrite Hc in IHcwv. exact IHcwv. }
+  destruct (sym_eqb call "flush").
+  { destruct (c_udp (wc w cid)); [apply I_hr; exact H|].
+    destruct (negb (c_opened (wc w cid))); [apply I_hr; exact H|].
+    destruct (el_write f cid 0 w) as [r w1] eqn:He.
+    assert (H1 : Iv (Rel L P N) w1).
+    { specialize (IHwrite cid 0 w L P N H). rewrite He in IHwrite. exact IHwrite. }
+    destruct r; try (apply I_hr; exact H1).
+    destruct (negb (l_et (st w1)) && c_opened (wc w1 cid) &&
+              match c_out (wc w1 cid) with [] => false | _ :: _ => true end) eqn:Hb;
+      [|apply I_hr; exact H1].
+    destruct (epctl "mod" (c_fd (wc w1 cid)) true false w1) as [r2 w2] eqn:Hep.
+    apply I_hr. eapply (I_epctl_opened_now L P N w1 cid "mod"); [cbn; tauto|exact H1| |exact Hep].
+    destruct (c_opened (wc w1 cid)); [reflexivity|].
+    rewrite Bool.andb_false_r in Hb. discriminate. }
+  destruct (sym_eqb call "readfrom").
+  { destruct args as [|[z|d|s0] [|a2 rest]]; try (eapply Inv_desync; exact H).
+    apply I_hr. apply I_wsetc; try (rewrite wc_ghost; reflexivity).
+    apply I_ghost; [cbn; tauto|exact H]. }
+  destruct (sym_eqb call "asyncwrite").
+  { destruct args as [|[z|d|s0] [|cb [|a3 rest]]]; try (eapply Inv_desync; exact H).
+    destruct (c_udp (wc w cid)) eqn:Hudp.
+    - destruct (negb (c_remote (wc w cid)) && negb (c_opened (wc w cid))) eqn:Hb.
+      + destruct (sys "sendto" _ (ghost "staleudp" cid [] w)) as [k w1] eqn:Hs.
+        assert (H1 : Iv (Rel L P N) w1) by (eapply I_stale_sendto; [exact H|exact Hs]).
+        apply I_hr. destruct (flag_of cb); [apply I_quiet; [apply quiet_acb|reflexivity|exact H1]|exact H1].
+      + destruct (sys "sendto" _ w) as [k w1] eqn:Hs.
+        assert (H1 : Iv (Rel L P N) w1).
+        { eapply I_sendto; [exact H|exact Hudp| |exact Hs].
+          destruct (c_remote (wc w cid)); [left; reflexivity|].
+          destruct (c_opened (wc w cid)); [right; reflexivity|discriminate]. }
+        apply I_hr. destruct (flag_of cb); [apply I_quiet; [apply quiet_acb|reflexivity|exact H1]|exact H1].
+    - destruct (trigger false (TAsyncWrite cid d (flag_of cb)) w) as [r w1] eqn:Ht.
+      apply I_hr. assert (Hx := I_trigger_rel L P N false (TAsyncWrite cid d (flag_of cb)) w eq_refl H).
+      rewrite Ht in Hx. exact Hx. }
+  destruct (sym_eqb call "asyncwritev").
+  { destruct args as [|cb segs]; [eapply Inv_desync; exact H|].
+    destruct (c_udp (wc w cid)); [apply I_hr; exact H|].
+    destruct (trigger false (TAsyncWritev cid (segs_of segs) (flag_of cb)) w) as [r w1] eqn:Ht.
+    apply I_hr. assert (Hx := I_trigger_rel L P N false (TAsyncWritev cid (segs_of segs) (flag_of cb)) w eq_refl H).
+    rewrite Ht in Hx. exact Hx. }
+  destruct (sym_eqb call "wake").
+  { destruct args as [|cb [|a2 rest]]; try (eapply Inv_desync; exact H).
+    destruct (trigger true (TWake cid (flag_of cb)) w) as [r w1] eqn:Ht.
+    apply I_hr. assert (Hx := I_trigger_rel L P N true (TWake cid (flag_of cb)) w eq_refl H).
+    rewrite Ht in Hx. exact Hx. }
+  destruct (sym_eqb call "close").
+  { destruct args as [|cb [|a2 rest]]; try (eapply Inv_desync; exact H).
+    destruct (trigger true (TClose cid (flag_of cb)) w) as [r w1] eqn:Ht.
+    apply I_hr. assert (Hx := I_trigger_rel L P N true (TClose cid (flag_of cb)) w eq_refl H).
+    rewrite Ht in Hx. exact Hx. }
+  destruct (sym_eqb call "elclose").
+  { match goal with |- context [el_close f ?t true w] => set (tg := t) end.
+    destruct (el_close f tg true w) as [r w1] eqn:Hc.
+    apply I_hr. specialize (IHclose tg true w L P N H). rewrite Hc in IHclose. exact IHclose. }
+  destruct (sym_eqb call "on").
+  { destruct args as [|[t|b1|s0] [|[z|b2|call'] args']]; try (eapply Inv_desync; exact H).
+    destruct (c_opened (wc w t)); [apply IHhcall; exact H|eapply Inv_desync; exact H]. }
+  eapply Inv_desync; exact H.
+Qed.
+
+Lemma spec_all : forall f, spec f.
+Proof.
+  induction f as [|f IH].
+  - unfold spec. repeat split; intros.
+    + rewrite el_close_O. eapply Inv_desync; eauto.
+    + rewrite close_drain_O. eapply Inv_desync; eauto.
+    + rewrite conn_write_O. eapply Inv_desync; eauto.
+    + rewrite conn_write_loop_O. eapply Inv_desync; eauto.
+    + rewrite conn_writev_loop_O. eapply Inv_desync; eauto.
+    + rewrite conn_writev_O. eapply Inv_desync; eauto.
+    + rewrite el_write_O. eapply Inv_desync; eauto.
+    + rewrite handler_O. eapply Inv_desync; eauto.
+    + rewrite hcall_O. eapply Inv_desync; eauto.
+  - unfold spec. repeat split.
+    + apply el_close_step; exact IH.
+    + apply close_drain_step; exact IH.
+    + apply conn_write_step; exact IH.
+    + apply conn_write_loop_step; exact IH.
+    + apply conn_writev_loop_step; exact IH.
+    + apply conn_writev_step; exact IH.
+    + apply el_write_step; exact IH.
+    + apply handler_step; exact IH.
+    + apply hcall_step; exact IH.
+Qed.
+
+Lemma I_el_close : forall f cid e w L P N, Iv (Rel L P N) w -> Iv (Rel L P N) (snd (el_close f cid e w)).
+Proof. intros f. apply (spec_all f). Qed.
+Lemma I_conn_write : forall f cid d w L P N, Iv (Rel L P N) w -> Iv (Rel L P N) (snd (conn_write f cid d w)).
+Proof. intros f. apply (spec_all f). Qed.
+Lemma I_conn_writev : forall f cid d w L P N, Iv (Rel L P N) w -> Iv (Rel L P N) (snd (conn_writev f cid d w)).
+Proof. intros f. apply (spec_all f). Qed.
+Lemma I_el_write : forall f cid n w L P N, Iv (Rel L P N) w -> Iv (Rel L P N) (snd (el_write f cid n w)).
+Proof. intros f. apply (spec_all f). Qed.
+Lemma I_handler : forall f cid w L P N, Iv (Rel L P N) w -> Iv (Rel L P N) (snd (handler f cid w)).
+Proof. intros f. apply (spec_all f). Qed.
 
 End Mutual.
